@@ -164,7 +164,8 @@ def generate(ctx):
                 ctx.tally('workload', 'overlay_leading_empties')
             base_r = rng.sample(_ROWS, rng.randint(1, 4))
             base_c = rng.sample(_COLS, rng.randint(1, 3))
-            dts = {c: rng.choice(['float64', 'object', 'float64', '<U5', 'int64', 'M8[D]']) for c in _COLS}
+            dts = {c: rng.choice(['float64', 'object', 'float64', '<U5', 'int64', 'M8[D]', 'float32', 'M8[D]']) for c in _COLS}
+            finer = {'float32': 'float64', 'M8[D]': 'M8[s]'}  # later inputs may hold the same kind in a wider / finer dtype
             frames = []
             aligned_focus = rng.random() < 0.3
             if aligned_focus:
@@ -196,7 +197,7 @@ def generate(ctx):
                 rng.shuffle(rr)
                 if i < lead_empty_o:
                     rr = []
-                frames.append(_frame_desc(rng, rr, cc, [dts[c] for c in cc]))
+                frames.append(_frame_desc(rng, rr, cc, [(finer.get(dts[c], dts[c]) if i and rng.random() < 0.4 else dts[c]) for c in cc]))
             case['frames'] = frames
             case['union'] = rng.random() < 0.7
         else:
@@ -222,14 +223,62 @@ def generate(ctx):
 
 # --------------------------------------------------------------------------------------
 
-def _build_frame(d):
+def _build_frame(d, cls=None):
     import random
     spec = F.FrameSpec(d['rows'], d['cols'], 'str', 'str', d['dtypes'], d['cells'], None)
     if not d['cols']:
-        return F.build_frame(spec, []), []
+        return F.build_frame(spec, [], cls=cls), []
     lays = F.layouts(d['dtypes'])
     lay = lays[d['lay'] % len(lays)]
-    return F.build_frame(spec, lay), lay
+    return F.build_frame(spec, lay, cls=cls), lay
+
+
+def _go_independence(case, ctx):
+    """the same inputs as grow-only frames: the result is a new grow-only frame; growing it must not show in any input and growing
+    an input must not show in it (the concatenated / overlaid labels may be equal to an input's, never the same object)."""
+    import static_frame as sf
+    descs = case['frames']
+    if len(descs) < 1 or case.get('collide'):
+        return
+    try:
+        inputs = [_build_frame(d, cls=sf.FrameGO)[0] for d in descs]
+        if case['op'] == 'frame_overlay':
+            out = sf.FrameGO.from_overlay(inputs, union=case['union'])
+        else:
+            out = sf.FrameGO.from_concat(inputs, axis=case['axis'], union=case['union'], fill_value=case['fill'])
+    except Exception as e:
+        ctx.tally('go_independence', 'construction_raised:' + type(e).__name__)
+        return
+    if not isinstance(out, sf.FrameGO):
+        return
+    klass = {'op': case['op'], 'axis': case.get('axis'), 'union': case['union'], 'n': len(descs), 'grow_only_inputs': True}
+    ctx.tally('go_independence', 'checked')
+    before = [canon.snap(f) for f in inputs]
+    try:
+        out['__result_growth__'] = np.arange(len(out.index))
+    except Exception as e:
+        ctx.tally('go_independence', 'growth_raised:' + type(e).__name__)
+        return
+    for i, f in enumerate(inputs):
+        try:
+            same = canon.snap(f) == before[i] and len(f.columns) == f.shape[1]
+        except Exception:
+            same = False
+        if not same:
+            ctx.violation('input_changed_by_growth_of_result', detail={'input': i, 'columns': [repr(c) for c in f.columns][:8], 'shape': f.shape}, klass=klass)
+            return
+    snap_out = canon.snap(out)
+    for f in inputs[:2]:
+        try:
+            f['__input_growth__'] = np.arange(len(f.index))
+        except Exception:
+            continue
+    try:
+        same = canon.snap(out) == snap_out and len(out.columns) == out.shape[1]
+    except Exception:
+        same = False
+    if not same:
+        ctx.violation('result_changed_by_growth_of_input', detail={'columns': [repr(c) for c in out.columns][:8], 'shape': out.shape}, klass=klass)
 
 
 def _build_series(d, name=None):
@@ -271,6 +320,8 @@ def _grid(out):
 def check(case, ctx):
     ctx.tally('operation', case['op'])
     op = case['op']
+    if op in ('frame_concat', 'frame_overlay') and case['seed'] % 3 == 0:
+        _go_independence(case, ctx)
     if op in ('frame_concat', 'frame_concat_items', 'frame_concat_series'):
         return _check_frame_concat(case, ctx)
     if op in ('series_concat', 'series_concat_items'):
